@@ -3,6 +3,7 @@ From Coq Require Import Reals ZArith List Bool.
 From Celer Require Import Base.Num Base.NumR Base.Vec3 C01.LedgerModel
   C05.StepModel C05.StepProofs C05.StepProofs2 C05.StepRefute C05.StatusCheck C05.StatusCheckProofs
   C05.MfpProofs C05.Boundary C05.BoundaryProofs.
+From Celer Require Import Base.Stream C15.Samplers C05.MscLimit C05.MscLimitProofs.
 Import ListNotations.
 Local Open Scope R_scope.
 
@@ -252,3 +253,36 @@ Theorem C05_boundary_full_extends_model : forall i (s : sim R),
   boundary_act_full false false i s = boundary_act i s.
 Proof. exact boundary_act_full_ok. Qed.
 Print Assumptions C05_boundary_full_extends_model.
+
+(** ** Urban MSC true-path limiters (em/msc/detail/UrbanMsc{Safety,Minimal}StepLimit.hh):
+    for EVERY input and EVERY random stream the returned true path never exceeds the physics
+    step limit chosen in pre-step (it is exactly that limit when it is the shorter one),
+    given limit_min <= limit, which both constructors establish *)
+Theorem C05_msc_step_limit_le_physics_limit :
+  forall (max_step limit limit_min : R) (s : list R) r s',
+  limit_min <= limit ->
+  msc_true_path_limit max_step limit limit_min s = Some (r, s') ->
+  r <= max_step /\ (max_step <= limit -> r = max_step) /\ (limit_min <= max_step -> limit_min <= r).
+Proof. exact msc_step_limit_le_physics_limit. Qed.
+Print Assumptions C05_msc_step_limit_le_physics_limit.
+
+(** composed with the "safety" / "safety plus" constructor: no hypothesis left *)
+Theorem C05_msc_safety_step_limit_le_physics_limit :
+  forall usp phys_step range safety rf ri sf lmin rho alpha (s : list R) r s',
+  msc_true_path_limit (safety_plus_max_step usp phys_step range rho alpha)
+                      (safety_limit range safety rf ri sf lmin) lmin s = Some (r, s') ->
+  r <= phys_step.
+Proof. exact msc_safety_step_limit_le_physics_limit. Qed.
+Print Assumptions C05_msc_safety_step_limit_le_physics_limit.
+
+Theorem C05_msc_minimal_limit_ge_min : forall ob (ri rf range mfp lmin : R),
+  lmin <= ri -> lmin <= minimal_limit ob ri rf range mfp lmin.
+Proof. exact minimal_limit_ge_min. Qed.
+Print Assumptions C05_msc_minimal_limit_ge_min.
+
+(** non-vacuity: the collapsed case (limit = limit_min = 4) with a shorter physics limit 1
+    returns the physics limit; with a longer one (9) it returns limit_min *)
+Theorem C05_msc_limit_examples :
+  msc_true_path_limit (T:=R) 1 4 4 [] = Some (1, []) /\ msc_true_path_limit (T:=R) 9 4 4 [] = Some (4, []).
+Proof. exact (conj ex_collapsed ex_min_returned). Qed.
+Print Assumptions C05_msc_limit_examples.
